@@ -219,6 +219,7 @@ def run_broker(case):
                 reb = lab.rebalancing(targets, measure, 3600, margin=case.get("threshold", 0.0))
             before = positions()
             len_before = len(br.track_record)
+            tr_before = record_fingerprint(br.track_record)
             try:
                 br.rebalance(reb)
                 err = None
@@ -235,6 +236,10 @@ def run_broker(case):
                     return finish(res, flags)
                 if len(br.track_record) != len_before:
                     res.fail("%s: rebalance raised %s but the track record grew" % (tag, type(err).__name__))
+                    return finish(res, flags)
+                if record_fingerprint(br.track_record) != tr_before:
+                    res.fail("%s: rebalance raised %s and left the track record changed: %s -> %s" % (
+                        tag, type(err).__name__, tr_before, record_fingerprint(br.track_record)))
                     return finish(res, flags)
                 res.tag("rebalance-raised")
                 traded_first = [i for i in range(n) if (targets[i] not in (None, 0.0)) or led.q[i] != 0]
@@ -271,6 +276,20 @@ def run_broker(case):
                     res.fail("%s: successful rebalance did not add exactly one track-record entry" % tag)
                     return finish(res, flags)
     return finish(res, flags)
+
+
+def record_fingerprint(tr):
+    """What a user can see of the track record through indexing: entries by position (first, last, all) and by time."""
+    try:
+        n = len(tr)
+        by_pos = [id(tr[k]) for k in range(n)]
+        last = id(tr[-1]) if n else None
+        times = [str(tr[k].time) for k in range(n)]
+        by_time = [id(tr[tr[k].time]) for k in range(n)]
+        frame = len(tr.net_liquidation_value()) if n else 0
+        return (n, by_pos, last, times, by_time, frame)
+    except Exception as exc:  # noqa
+        return "unreadable: %s: %s" % (type(exc).__name__, str(exc)[:80])
 
 
 def finish(res, flags):
